@@ -12,6 +12,8 @@ import sys
 import warnings
 
 sys.path.insert(0, os.path.dirname(os.path.abspath(__file__)))
+import covhook  # noqa: E402
+covhook.start()
 warnings.simplefilter("ignore")
 faulthandler.dump_traceback_later(int(os.environ.get("VERIF_GEN_TIMEOUT", "3000")), exit=True)
 
